@@ -820,6 +820,26 @@ impl SegmentCloneMap {
             segment_map.insert(old_segment.addr(), new_segment);
         }
 
+        // The copy is not always shaped like the original: once subqueries have been swapped for
+        // table references it has fewer segments, and pairing by crawl position drifts for
+        // everything that follows the first swap. Pair the two trees level by level instead and
+        // do not look inside a pair whose contents no longer correspond.
+        let mut stack = vec![(segment, segment_copy.clone())];
+        while let Some((old_segment, new_segment)) = stack.pop() {
+            if old_segment.get_type() == new_segment.get_type()
+                && old_segment.segments().len() == new_segment.segments().len()
+            {
+                stack.extend(
+                    old_segment
+                        .segments()
+                        .iter()
+                        .cloned()
+                        .zip(new_segment.segments().iter().cloned()),
+                );
+            }
+            segment_map.insert(old_segment.addr(), new_segment);
+        }
+
         Self {
             root: segment_copy,
             segment_map,
